@@ -6,6 +6,16 @@ from checks import codec_common as cc
 THEOREMS = ["base36_roundtrip", "base36_rejects_large", "C17_roundtrip", "C17_roundtrip_nonnil", "C17_roundtrip_refuted",
             "C17_total", "C17_panic_only_unchecked", "C17_reencodes", "C17_pinned"]
 
+LEMMAS = {"base36_roundtrip": ("CodecText", "base36_roundtrip_lemma"),
+          "base36_rejects_large": ("CodecText", "parse36_rejects_large"),
+          "C17_roundtrip": ("CodecLaws2", "json_roundtrip_thm"),
+          "C17_roundtrip_nonnil": ("CodecLaws2", "json_roundtrip_nonnil_thm"),
+          "C17_roundtrip_refuted": ("CodecLaws2", "json_roundtrip_refuted_thm"),
+          "C17_total": ("CodecLaws3", "json_total_lemma"),
+          "C17_panic_only_unchecked": ("CodecText", "json_unmarshal_panic"),
+          "C17_reencodes": ("CodecLaws4", "json_reencodes_lemma"),
+          "C17_pinned": ("CodecPinned", "json_pinned_lemma")}
+
 ASSUME = [
     "encoding/json on generic trees: a Go value through json.Marshal and json.Unmarshal into interface{} is `reparse` (ints and floats become float64, NaN/Inf refused, strings coerced to valid UTF-8, slices []interface{}, maps map[string]interface{}); float64(int) and the coercion are executable in the model and compared with the real library on every run; duplicate keys after coercion and nested nil slices/maps are outside the model (the generator keeps object keys valid UTF-8)",
     "time.Format/time.Parse with time.RFC3339: text is ASCII and parses back to the instant floored to the second with the same offset, for local years 0..9999 and whole-minute offsets below 24 h (hypothesis json_lib_ok of the theorems; the calendar arithmetic is not re-proved; the correspondence feeds the model the real Format/Parse results of each case)",
@@ -38,7 +48,7 @@ def mutations(c, n, coq_n):
 
 @cc.guarded
 def run(chk):
-    c = cc.CodecCheck(chk, "C17", "json", THEOREMS)
+    c = cc.CodecCheck(chk, "C17", "json", THEOREMS, LEMMAS)
     import time
     t0 = time.time()
     c.proofs()
@@ -79,6 +89,10 @@ def run(chk):
     chk.oblige("no panic, and every accepted document re-encodes, on %d mutated documents" % len(mrecs),
                all(r["spec_ok"] for r in mrecs))
 
+    cc.generator_selftest(chk, cc.kind_histogram(recs), cc.REQUIRED_KINDS, "round-trip family")
+    cc.generator_selftest(chk, mhist, ["mut:valid", "mut:bitflip", "mut:bytes", "mut:truncate", "mut:delete", "mut:duplicate-first",
+                                       "mut:duplicate-last", "mut:swap", "mut:swap2", "mut:toplevel", "mut:extra-key",
+                                       "out:ok", "out:err", "is-json", "not-json"], "mutation stream")
     bulk_cases, bulk_hist, mbulk, mbulk_hist = 0, {}, 0, {}
     if thorough:
         bulk_cases, fails, bulk_hist = c.bulk("jsonrt", 300000)
